@@ -188,12 +188,22 @@ func runHandoff(p hparams) func(e *schedx.Exec) *schedx.Outcome {
 					for _, rq := range c {
 						var resp *client.Response
 						var err error
-						if rq.Via == "config" {
+						if strings.HasPrefix(rq.Via, "config") {
 							cfg := client.Config{Header: map[string]string{"X-Id": rq.ID}, Timeout: timeoutValue(rq.Timeout)}
 							if ctx, ok := ctxs[rq.ID]; ok {
 								cfg.Ctx = ctx
 							}
-							resp, err = cl.Get("http://server.test/"+rq.ID, cfg)
+							// the same Config may also carry a payload: the other fields must still be honoured
+							switch rq.Via {
+							case "config+body":
+								cfg.Body = map[string]string{"k": "v"}
+								resp, err = cl.Post("http://server.test/"+rq.ID, cfg)
+							case "config+form":
+								cfg.FormData = map[string]string{"f": "v"}
+								resp, err = cl.Post("http://server.test/"+rq.ID, cfg)
+							default:
+								resp, err = cl.Get("http://server.test/"+rq.ID, cfg)
+							}
 						} else {
 							r := cl.R()
 							r.SetHeader("X-Id", rq.ID)
@@ -368,8 +378,14 @@ func handoffScenarios() []schedx.Scenario {
 	// timeouts (request-level / client-level / both, given through setters or a Config; the server answers at any
 	// moment or only after the caller has given up), each followed by a request on the recycled objects whose own
 	// timeout must decide its fate
-	for _, via := range []string{"", "config"} {
+	for _, via := range []string{"", "config", "config+body", "config+form"} {
 		n := "timeout-" + viaName(via) + "-"
+		if strings.Contains(via, "+") {
+			// Config carrying a payload next to the timeout: the two scenarios in which the request-level value decides
+			add(n+"request-level-late-then-next", hparams{Callers: [][]hreq{{{ID: "r1", Timeout: "tiny", Via: via, Late: true}, {ID: "r2", Via: via}}}}, b1, b2, false)
+			add(n+"client-level-late-then-request-level-huge", hparams{ClientTimeout: "tiny", Callers: [][]hreq{{{ID: "r1", Via: via, Late: true}, {ID: "r2", Timeout: "huge", Via: via}}}}, b1, b2, false)
+			continue
+		}
 		add(n+"request-level-late-then-next", hparams{Callers: [][]hreq{{{ID: "r1", Timeout: "tiny", Via: via, Late: true}, {ID: "r2", Via: via}}}}, b2, b3, false)
 		add(n+"request-level-vs-response-then-next", hparams{Callers: [][]hreq{{{ID: "r1", Timeout: "tiny", Via: via}, {ID: "r2", Via: via}}}}, b2, b3, false)
 		add(n+"client-level-late-then-request-level-huge", hparams{ClientTimeout: "tiny", Callers: [][]hreq{{{ID: "r1", Via: via, Late: true}, {ID: "r2", Timeout: "huge", Via: via}}}}, b2, b3, false)
